@@ -197,7 +197,10 @@ def run_history(ctx, base, spec, ops):
                     elif (h0, w0) != (h1, w1) and not ((h0, h1) == ("Y", "M") and w0 == w1) and not ((w0, w1) == ("Y", "N") and h0 == h1):
                         mon.fail("C07:foreign-index-write", f"daemon on {host} changed the copy of file {fid} on node {node} (not managed by it) from {(h0, w0)} to {(h1, w1)}")
                 for name in trees0:
-                    if name not in ready and trees0[name] != trees1[name] and not (sim.nodes[name].host == host and sim.nodes[name].active and sim.init_requested(sim.nodes[name])):
+                    row = w.StorageNode.get_or_none(name=name)  # (the row as it is now: the operator may have activated or re-hosted the node)
+                    if row is None:
+                        continue
+                    if name not in ready and trees0[name] != trees1[name] and not (row.host == host and row.active and sim.init_requested(row)):
                         mon.fail("C07:foreign-node", f"the tree of node {name} changed during an iteration of the daemon on {host}, which does not manage it")
             else:
                 histories.apply_op(sim, mon, op)
